@@ -742,7 +742,7 @@ func (w *worker) modeLongPairs() {
 		if w.ses.SyncHeavy {
 			// the library reaches stubs (pools, goroutines, channels, timers): let its
 			// own goroutines interleave with the caller in a seeded way
-			pol = simrt.Policy{Kind: []string{"seq", "walk", "rr", "pct"}[k%4], P: 0.02, Quantum: 7, Depth: 3, PoolMode: "lifo", TimerP: 0.01}
+			pol = simrt.Policy{Kind: []string{"seq", "walk", "rr", "pct"}[k%4], P: 0.02, Quantum: 7, Depth: 3, PoolMode: "lifo", TimerP: 0.01, GCP: 0.01}
 		}
 		spec := &simrt.RunSpec{Seed: simrt.Mix(w.ses.Seed, uint64(k), 5), Tasks: [][]simrt.Call{calls}, Policy: pol, Est: est + 64}
 		w.execRun(spec, nil, false)
